@@ -3,6 +3,8 @@
 
 #include "work_queue.h"
 
+#include "fiber_verif.h"
+
 int work_queue_init(work_queue_t* wq) {
   assert(wq);
   wq->in_count = 0;
@@ -28,6 +30,7 @@ int work_queue_push(work_queue_t* wq, work_queue_item_t* item) {
     // we got here first; we'll be the worker
     ret = WORK_QUEUE_START_WORKING;
   }
+  FIBER_VERIF_POINT(FV_WQ_PUSH_MID, wq, item);
   mpsc_fifo_push(&wq->fifo, item);
   return ret;
 }
@@ -39,6 +42,7 @@ int work_queue_get_work(work_queue_t* wq, work_queue_item_t** out) {
     if (wq->out_count == wq->in_count) {
       const int64_t old_out_count = wq->out_count;
       wq->out_count = 0;
+      FIBER_VERIF_POINT(FV_WQ_RETIRE_PRE_SUB, wq, 0);
       const int64_t new_in_count =
           __sync_sub_and_fetch(&wq->in_count, old_out_count);
       if (new_in_count == 0) {
